@@ -181,6 +181,41 @@ def run(ctx):
             ctx.ok("C07.R4b", "%s in %s" % (k[1], k[0]), "guards %s on both sides" % (sorted(a) or "none"))
     ctx.floor("C07.R4b", "accessor call sites compared", ncmp, 35)
 
+    # delta coding is applied symmetrically: whenever the `alignment_starts_are_deltas` flag can be true, the writer
+    # subtracts the previous start on EVERY path to the encode call and the reader adds it on every path from decode
+    ctx.rule("C07.R4c", "A7 identity-or-inverse: AP delta coding — writer subtracts prev on every flag-true path, reader adds it")
+    for key, opk, sink, what in (
+            (WR + "::Writer::<'a>::write_alignment_start", ("Sub", "SubWithOverflow"), r"codec::Encode<'_>>::encode$|::encode$", "writer"),
+            (RD + "::Records::<'c, 'ch>::read_alignment_start", ("Add", "AddWithOverflow"), None, "reader")):
+        f = ctx.anchor("C07.R4c", key)
+        if f is None:
+            continue
+        sws = R.switch_on_call(f, r"PreservationMap::alignment_starts_are_deltas$")
+        if not sws:
+            # the flag is stored in a local first: find switches on a bool local that derives from the call
+            sws = [(b, tt, ft, None) for b, tt, ft, cb in R.switch_on_try_call(f, r"PreservationMap::alignment_starts_are_deltas$")]
+        opblocks = {bi for bi, blk in enumerate(f.blocks) if not blk.get("cu") and
+                    any(st[0] == "=" and st[2][0] == "bin" and st[2][1] in opk for st in blk["s"])}
+        if not sws or not opblocks:
+            ctx.violation("C07.R4c", "C07.R4c/shape/" + key, "%s: deltas flag test or the %s operation not found" % (key, opk[0]), f.loc())
+            continue
+        false_edges = {(sb, ft) for sb, tt, ft, _c in sws}
+        if what == "writer":
+            goals = [b for b, c in R.find_calls(f, sink)]
+        else:
+            goals = C.success_exit_blocks(f)
+        reach = C.reachable(f, 0, removed=opblocks, removed_edges=false_edges)
+        bad = [g for g in goals if g in reach]
+        if not goals:
+            ctx.violation("C07.R4c", "C07.R4c/ANCHOR-MISSING/%s/sink" % key, "encode/return site not found in %s" % key, f.loc())
+        elif bad:
+            ctx.violation("C07.R4c", "C07.R4c/asymmetric-delta/" + key,
+                          "the %s can reach its %s with the deltas flag set but without %s the previous alignment start: the other side "
+                          "applies the inverse unconditionally, so the two desynchronise (e.g. for records without a start)" % (
+                              what, "encode call" if what == "writer" else "result", "subtracting" if what == "writer" else "adding"), f.loc(bad[0]))
+        else:
+            ctx.ok("C07.R4c", key, "every flag-true path passes the %s with the previous start" % opk[0], f.loc())
+
     # ---------------------------------------------------------------- R5 bookkeeping
     ctx.rule("C07.R5", "A2 record counter advanced only in flush() by the number of records just written")
     R.writer_set_rule(ctx, "C07.R5", K + "io::writer::Writer", "record_counter", {
